@@ -3,7 +3,8 @@
    stdin: histories, one operation per line, histories separated by a line `reset`:
      load <id> <decl>...      build a fresh module and MIR_load_module it.  decl = <K><name>:
                                 E export, F forward, D function definition (returns <id>),
-                                V data definition (one i64 = <id>), C import used by a direct call,
+                                V W X B A Q T Z Y data-like definition (single item or head of a
+                                multi-item section, see do_load; reads as <id>), C import used by a direct call,
                                 P import used by `mov t,<ref>; call t`, R import used by
                                 `mov t,<ref>; mov r,i64:(t)`  (name = one lower-case letter)
      ext <name> <k>           MIR_load_external (name, address of object #k), k in 0..9, value 100+k
@@ -96,8 +97,8 @@ static void *resolver (const char *name) {
 #define MAX_DEFS 32
 static void do_load (int id, int ndecl, char **decls) {
   mod_t *md = &mods[n_mods];
-  MIR_item_t defs[MAX_DEFS];
-  int ndefs = 0;
+  MIR_item_t defs[MAX_DEFS], cells[MAX_DEFS], bss[MAX_DEFS];
+  int ndefs = 0, ncells = 0, nbss = 0;
   char nm[2] = {0, 0};
   MIR_type_t i64 = MIR_T_I64;
   int64_t v = id;
@@ -118,10 +119,37 @@ static void do_load (int id, int ndecl, char **decls) {
       if (ndefs < MAX_DEFS) defs[ndefs++] = f;
       break;
     }
-    case 'V':
-      it = MIR_new_data (ctx, nm, MIR_T_I64, 1, &v);
+    case 'V': case 'W': case 'X': case 'B': case 'A': case 'Q': case 'T': case 'Z': case 'Y': {
+      /* exported/definable non-function items of every kind; the head item carries the name, the
+         anonymous items created right after it belong to the same section (load_bss_data_section):
+           V data            W data + data            X data + bss + data
+           B bss             A bss + data
+           Q ref             T ref + data             (ref -> local cell holding <id>)
+           Z expr            Y expr + bss + data      (expr function returns <id>)
+         what an importer reads through the head's address is <id> for every kind (bss heads are
+         filled with <id> after the load; a ref head yields the cell's address, mapped back) */
+      char hn[16];
+      int64_t filler = 7000 + id;
+      int nfollow = (k == 'W' || k == 'A' || k == 'T') ? 1 : (k == 'X' || k == 'Y') ? 2 : 0;
+      MIR_item_t aux = NULL;
+      snprintf (hn, sizeof (hn), "%c%d", k == 'Q' || k == 'T' ? 'c' : 'x', i);
+      if (k == 'Q' || k == 'T') {
+        aux = MIR_new_data (ctx, hn, MIR_T_I64, 1, &v);
+        if (ncells < MAX_DEFS) cells[ncells++] = aux;
+      } else if (k == 'Z' || k == 'Y') {
+        aux = MIR_new_func (ctx, hn, 1, &i64, 0);
+        MIR_append_insn (ctx, aux, MIR_new_ret_insn (ctx, 1, MIR_new_int_op (ctx, id)));
+        MIR_finish_func (ctx);
+      }
+      if (k == 'V' || k == 'W' || k == 'X') it = MIR_new_data (ctx, nm, MIR_T_I64, 1, &v);
+      else if (k == 'B' || k == 'A') { it = MIR_new_bss (ctx, nm, 8); if (nbss < MAX_DEFS) bss[nbss++] = it; }
+      else if (k == 'Q' || k == 'T') it = MIR_new_ref_data (ctx, nm, aux, 0);
+      else it = MIR_new_expr_data (ctx, nm, aux);
+      if (nfollow == 2) MIR_new_bss (ctx, NULL, 8);
+      if (nfollow >= 1) MIR_new_data (ctx, NULL, MIR_T_I64, 1, &filler);
       if (ndefs < MAX_DEFS) defs[ndefs++] = it;
       break;
+    }
     case 'C': case 'P': case 'R': {
       int dup = 0;
       it = MIR_new_import (ctx, nm);
@@ -174,6 +202,8 @@ static void do_load (int id, int ndecl, char **decls) {
      path as well, but the history ends there anyway */
   MIR_load_module (ctx, md->m);
   for (int i = 0; i < ndefs; i++) note_addr (defs[i]->addr, id);
+  for (int i = 0; i < ncells; i++) note_addr (cells[i]->addr, id);
+  for (int i = 0; i < nbss; i++) *(int64_t *) bss[i]->addr = id;
   printf ("ok\n");
 }
 
@@ -218,9 +248,13 @@ static void do_call (void) {
     for (int j = 0; j <= MAX_IMPS; j++) buf[j] = -1;
     ((void (*) (int64_t *)) md->entry->addr) (buf);
     len += snprintf (out + len, sizeof (out) - len, " m%d:", md->id);
-    for (int j = 0; j < md->nimp; j++)
+    for (int j = 0; j < md->nimp; j++) {
+      int64_t mapped;
+      /* a value that is a known address (ref data pointing to a cell) is shown as its identity */
+      if (md->imp_use[j] == 'R' && find_addr ((void *) buf[j], &mapped)) buf[j] = mapped;
       len += snprintf (out + len, sizeof (out) - len, "%s%c=%ld", j ? "," : "", md->imp_name[j],
                        (long) buf[j]);
+    }
   }
   printf ("ok%s\n", out);
 }
